@@ -535,15 +535,18 @@ func (s *Server) cmdAOF(msg *Message) (resp.Value, error) {
 }
 
 func (s *Server) liveAOF(pos int64, conn net.Conn, rd *PipelineReader, msg *Message) error {
-	s.mu.RLock()
+	// Open and register in one step: an AOFSHRINK that replaces the log in
+	// between would not know about this reader, which would then wait at the
+	// end of the unlinked old file for ever.
+	s.mu.Lock()
 	f, err := os.Open(s.aof.Name())
-	s.mu.RUnlock()
+	if err == nil {
+		s.aofconnM[conn] = f
+	}
+	s.mu.Unlock()
 	if err != nil {
 		return err
 	}
-	s.mu.Lock()
-	s.aofconnM[conn] = f
-	s.mu.Unlock()
 	defer func() {
 		s.mu.Lock()
 		delete(s.aofconnM, conn)
